@@ -31,15 +31,16 @@ def plan(tier):
             "required_monitors": ["pixels-judged", "layers-judged", "vector-layers-judged", "pixel-grid",
                                   "schedule-runs", "boundscheck-runs", "rendered-figures"],
             "required_tags": ["window-smaller-than-cell", "window-larger-than-domain", "origin-on-face", "oblique",
-                              "ndim2", "ndim3", "dx-omitted", "origin-omitted", "resolution-omitted"]}
+                              "ndim2", "ndim3", "dx-omitted", "origin-omitted", "resolution-omitted",
+                              "normal-vector-along-an-axis"]}
 
 
 def cases(ctx):
     out = []
     k = 0
     for e in (-6, -5, -4, -3, -2, -1, 0, 1, 2, 3, 4):
-        for dm in ("letter", "triple", "vector", "vector-zero", "2d"):
-            om = ["centre", "random", "face", "corner", "outside", "cell-centre"][k % 6]
+        for dm in ("letter", "triple", "vector", "vector-zero", "vector-axis", "2d"):
+            om = ["centre", "random", "face", "corner", "outside", "cell-centre"][(k + k // 6) % 6]
             out.append({"id": f"fix{k}", "fixed": {"ratio_exp": e, "dir_mode": dm, "origin_mode": om}, "i": k,
                         "ndim": 2 if dm == "2d" else 3})
             k += 1
@@ -84,6 +85,8 @@ def run_case(case, ctx, res):
         res.tag("origin-on-face")
     if req.get("dir_mode") in ("vector", "vector-zero"):
         res.tag("oblique")
+    if req.get("dir_mode") == "vector-axis":
+        res.tag("normal-vector-along-an-axis")
     res.nontrivial = info.get("required_unmasked", 0) >= 1
     res.sample = {"mesh": {"style": mesh["style"], "ndim": mesh["ndim"], "cells": len(mesh["pos"])},
                   "request": {k: req[k] for k in ("direction", "dx", "dy", "dx_unit", "pos_unit", "resolution", "origin_mode", "layers")},
